@@ -96,7 +96,7 @@ def checksum_covers_field_metadata(A: Analysis, col: Collector, rule: str):
         if isinstance(n, ast.Assign):
             for t in n.targets:
                 if isinstance(t, ast.Subscript):
-                    stored.append(n.value)
+                    stored.append(A.expand(n.value, ch))
     for v in stored:
         if isinstance(v, ast.Call) and dotted(v.func) == "type" and v.args and norm(v.args[0]) == "self":
             covers_class = True
@@ -125,7 +125,7 @@ def checksum_covers_field_metadata(A: Analysis, col: Collector, rule: str):
     }
     for n in walk_own(ch.node):
         if isinstance(n, ast.If) and any(isinstance(s, ast.Continue) for s in n.body):
-            t = alpha(n.test, {}, "_", keep=("self", "Out", "attrs"))
+            t = alpha(A.expand(n.test, ch), {}, "_", keep=("self", "Out", "attrs"))
             if t in AUDITED_SKIPS:
                 col.ok(rule, f"_compute_hashes skips a field only when `{norm(n.test)}` ({AUDITED_SKIPS[t]})", A.loc(n))
             else:
@@ -213,7 +213,10 @@ def check_c06(A: Analysis, col: Collector):
     rets = [n for n in walk_own(ch.node) if isinstance(n, ast.Return) and isinstance(n.value, ast.Tuple) and len(n.value.elts) == 2]
     if rets and isinstance(rets[0].value.elts[1], ast.Name):
         hv = rets[0].value.elts[1].id
-        first = rets[0].value.elts[0]
+        first = A.expand(rets[0].value.elts[0], ch, keep=(hv,))
+        for k_ in ast.walk(first):
+            for c_ in ast.iter_child_nodes(k_):
+                c_._parent = k_  # type: ignore[attr-defined]
         uses_items = any(isinstance(k, ast.Call) and isinstance(k.func, ast.Attribute) and k.func.attr == "items" and norm(k.func.value) == hv for k in ast.walk(first))
         whole = any(isinstance(k, ast.Name) and k.id == hv and not isinstance(getattr(k, "_parent", None), ast.Attribute) for k in ast.walk(first))
         if uses_items or whole:
@@ -669,7 +672,7 @@ def ordering_rule(A: Analysis, col: Collector, rule: str):
     # _compute_hashes: final hash over sorted items
     ch = A.func(f"{TASK_MOD}.Task._compute_hashes")
     rets = [n for n in walk_own(ch.node) if isinstance(n, ast.Return)]
-    if rets and "sorted(" in norm(rets[0].value):
+    if rets and "sorted(" in norm(A.expand(rets[0].value, ch)):
         col.ok(rule, "Task._compute_hashes hashes `sorted(field_hashes.items())`", A.loc(rets[0]))
     else:
         col.fail(rule, ch.qualname, "field-hashes-unsorted", "Task._compute_hashes no longer sorts the per-field hashes before hashing them", A.loc(ch.node))
